@@ -54,11 +54,12 @@ def near_wrap(e, name):
     angs = []
     try:
         if name.startswith('odo'):
-            d = e.vertices[1].pose - e.vertices[0].pose
-            angs = [d[2], (e.estimate - d)[2], e.vertices[0].pose[2], e.vertices[1].pose[2]]
+            # the only excluded points are those where the error itself jumps: angle residual z - (th2 - th1) at an odd multiple of pi
+            # (theorem C01, SE(2) odometry); vertex headings of exactly +-pi, quarter turns etc. are NOT excluded
+            r = float(e.estimate[2]) - (float(e.vertices[1].pose[2]) - float(e.vertices[0].pose[2]))
+            angs = [math.remainder(r, 2 * math.pi)]
         else:
-            q = e.vertices[0].pose + e.offset
-            angs = [q[2], q.inverse[2], e.vertices[0].pose[2]]
+            angs = []        # the landmark error has no angular component: nothing is excluded
     except Exception:  # noqa
         return False
     return any(abs(abs(float(a)) - math.pi) < 0.02 for a in angs)
@@ -205,6 +206,14 @@ def measurement_model(seed, n_per):
                 # chi2 = e^T Omega e with a non-diagonal SPD information; linear in Omega; non-negative
                 n = len(err)
                 Om = rand_spd(rng, n, cond=10 ** rng.uniform(0, 8))
+                # ... and for ANY symmetric matrix the value is the plain quadratic form (a difference of two SPD matrices, as in a linearity check)
+                Oi = rand_spd(rng, n, cond=10.0) - 2.0 * rand_spd(rng, n, cond=10.0)
+                e.information = Oi
+                ci, refi = float(e.calc_chi2()), float(err @ Oi @ err)
+                if not abs(ci - refi) <= 1e-9 * (abs(refi) + float(np.abs(Oi).max()) * float(err @ err)) + 1e-300:
+                    fails.append({'edge': name, 'vals': vals, 'law': 'chi2 != e^T Omega e for a symmetric indefinite Omega', 'chi2': ci, 'ref': refi,
+                                  'information': Oi.tolist()})
+                    continue
                 e.information = Om
                 c = float(e.calc_chi2())
                 ref = float(err @ Om @ err)
@@ -226,6 +235,20 @@ def measurement_model(seed, n_per):
                     fails.append({'edge': name, 'vals': vals, 'law': 'consistent measurement has non-zero error', 'err': z0.tolist()})
             except Exception as ex:  # noqa
                 fails.append({'edge': name, 'vals': vals, 'law': 'raised %r' % (ex,)})
+    # SE(2) odometry: the angular component of the error is the residual normalised to [-pi, pi) -- also when it is EXACTLY +-pi
+    from graphslam.pose.se2 import PoseSE2 as _SE2
+    from graphslam.vertex import Vertex as _V
+    from graphslam.edge.edge_odometry import EdgeOdometry as _EO
+    for (t1, t2, tz) in [(0.0, -math.pi / 2, math.pi / 2), (0.0, math.pi / 2, -math.pi / 2), (math.pi / 2, -math.pi / 2, 0.0), (0.25, 0.25, math.pi),
+                         (0.0, 0.0, -math.pi), (1.0, -2.0, 0.5), (3.0, -3.0, 0.2)] + [(rng.uniform(-3, 3), rng.uniform(-3, 3), rng.uniform(-3, 3)) for _ in range(n_per)]:
+        evals += 1
+        e = _EO([0, 1], np.eye(3), _SE2([0.3, -0.2], tz), [_V(0, _SE2([1.0, 2.0], t1)), _V(1, _SE2([-1.0, 0.5], t2))])
+        ang = float(np.asarray(e.calc_error())[2])
+        a1, a2, az = float(e.vertices[0].pose[2]), float(e.vertices[1].pose[2]), float(e.estimate[2])
+        resid = az - (a2 - a1)
+        if not (-math.pi <= ang < math.pi) or abs(math.remainder(ang - resid, 2 * math.pi)) > 1e-9:
+            fails.append({'edge': 'odo_SE2', 'vals': [[1.0, 2.0, t1], [-1.0, 0.5, t2], [0.3, -0.2, tz], None],
+                          'law': 'angular component %r of the SE(2) odometry error is not the residual %r normalised to [-pi, pi)' % (ang, resid)})
     # graph chi2 = sum of edge chi2
     from graphslam.vertex import Vertex
     from graphslam.edge.edge_odometry import EdgeOdometry
